@@ -55,9 +55,10 @@ def bit (b : Bool) : String := if b then "1" else "0"
 
 def variants : List (String × Cfg × World) :=
   [false, true].flatMap fun a => [false, true].flatMap fun b => [false, true].flatMap fun c =>
-    [false, true].map fun d =>
-    (s!"V{bit a}{bit b}{bit c}{bit d}",
-     ({ cutAllOutputs := a, parentEmits := !b, automateInFinally := c, restoreLists := d } : Cfg), world0)
+    [false, true].flatMap fun d => [false, true].map fun e =>
+    (s!"V{bit a}{bit b}{bit c}{bit d}{bit e}",
+     ({ cutAllOutputs := a, parentEmits := !b, automateInFinally := c, restoreLists := d,
+        refuseDriverExec := e } : Cfg), world0)
 
 def init : St := { vs := variants, obs := [], comps := [], wfs := [], fuel := 4000, n := 0 }
 
